@@ -386,6 +386,12 @@ func c08Body(r *Run) {
 			}
 		}
 	})
+	if t.Chance(1, 3) {
+		// Watermill's own transforming decorator around every handler's publisher (with a transformation that changes
+		// nothing): the outputs still reach the handler's publisher unmodified, context included
+		rig.Router.AddPublisherDecorators(message.MessageTransformPublisherDecorator(func(m *message.Message) {}))
+		r.Probe("transform-publisher-decorator")
+	}
 	rig.Start()
 	r.Sim.Quiesce()
 	// a third of the runs with several handlers: one handler is stopped and, as soon as its name is free again, a new
